@@ -220,6 +220,21 @@ Section Event.
   Qed.
 End Event.
 
+(** non-vacuity of the hypotheses of [event_buffer_lemma]: a clock ticking at (0, 1/2) is pending for
+    tau = 1 and due for tau = 1/4; a paused clock past tau is pending too *)
+Example pending_example :
+  let i := {| i_clocks := [Some (true, 0%Z, 1 # 2); Some (false, 7%Z, 0)]; i_mods := []; i_dist := None |} in
+  pending 0 1 (1 # 8, i, 0%Z) /\ due i 0 (1 # 4) /\ info_frac_ok i 0 /\ pending 1 1 (1 # 8, i, 0%Z).
+Proof.
+  cbn zeta. split; [|split; [|split]].
+  - split; [cbn; split; lra|]. split; [eexists; reflexivity|].
+    intros (tk & fr & E & L). cbn in E. inversion E. subst tk fr. change (inject_Z 0) with 0 in L. lra.
+  - exists 0%Z, (1 # 2). split; [reflexivity|change (inject_Z 0) with 0; lra].
+  - cbn. split; lra.
+  - split; [cbn; split; lra|]. split; [eexists; reflexivity|].
+    intros (tk & fr & E & L). cbn in E. inversion E.
+Qed.
+
 (** non-vacuity: a sound scheduled for tick 1 of a clock at 8 ticks/s, 512 Hz, buffers of 16 frames:
     T_k = (k+1)/4, so it begins in chunk 3 = device frame 48 *)
 Example event_example :
